@@ -5,7 +5,8 @@ PROPERTY = "C02"
 
 
 def tasks(tier):
-    return contract_tasks("contracts.scheduler", "C02", tier=tier) + contract_tasks("contracts.sim_process", "C02", tier=tier)
+    return (contract_tasks("contracts.scheduler", "C02", tier=tier) + contract_tasks("contracts.sim_process", "C02", tier=tier)
+            + contract_tasks("contracts.progress", "C02", tier=tier) + lemma_tasks("contracts.progress", "C02"))
 
 
 TRUSTED_BASE = TRUSTED_CORE
